@@ -129,7 +129,9 @@ def specs(tier):
     M = "props.c12"
 
     def add(name, fn, params, max_paths=200):
-        out.append(dict(module=M, fn=fn, name=name, params=params, max_paths=max_paths, vc_timeouts=(5, 40)))
+        # path conditions such as "every z-score of the block is 0" are non-linear; z3 5.1's default arithmetic core can ignore its
+        # timeout on them (nla monomial patching), the older core answers
+        out.append(dict(module=M, fn=fn, name=name, params=params, max_paths=max_paths, vc_timeouts=(5, 40), feas_opts={"arith.solver": 2}))
 
     add("2x2 + chi-square", "cat_x_cat", dict(chi2=True))
     add("2x3", "cat_x_cat", dict(ncols=3))
